@@ -59,7 +59,18 @@ def judge(prop, p, r, rebuild, line_level=True):
         if code_nocomma(lr[0]) != code_nocomma(lp[0]): return 'code tokens changed'
     elif prop == 'C03':
         lr = lex(r, True)
-        if lr is None: return None
+        if lr is None:
+            # the output does not parse (C01's clause); C03 still judges what tree-sitter's error recovery shows of the
+            # comments: a comment that is worded differently — typically because it swallowed the code after it — or a
+            # missing / extra comment is "a comment absorbs code / is lost"
+            def raw_comments(t):
+                acc = []
+                def w(n):
+                    if n.type == 'comment': acc.append(normc(n.text.decode()))
+                    for c in n.children: w(c)
+                w(ts(t)); return acc
+            if raw_comments(r) != [c[1] for c in interleave(lp[0]) if c[0] == 'C']: return 'comment lost, duplicated or reworded (a comment absorbed code): the output does not parse'
+            return None
         if interleave(lr[0]) != interleave(lp[0]): return 'comment lost, duplicated, reworded or moved across a token'
     elif prop == 'C06':
         if not line_level: return None
